@@ -481,6 +481,42 @@ theorem C16_bounded_abandon (dialT : Nat) (k : Kind) :
   obtain ⟨d, hd⟩ := Option.isSome_iff_exists.mp C16_current_facts.2.2.1
   cases k <;> simp [attemptBound, hd]
 
+/-- the deadline calls of client.go and the call chain of the handshake phases are the ones the model was
+    written against: one deadline armed before the first request, cleared only in the deferred closure of
+    `NewClientConnection` on success — after `upgrade`, hence after `startTls` / `tls.Conn.Handshake`, returned.
+    A deadline call that appears, disappears or moves names itself in this obligation. -/
+theorem C16_deadline_sites :
+    Gen.c16DeadlineSites = expectedDeadlineSites ∧ Gen.c16HandshakeChain = expectedHandshakeChain ∧
+    deadlineSpansHandshake Gen.c16DeadlineSites Gen.c16HandshakeChain = true ∧ Gen.c16WsDialBounded = true := by
+  decide
+
+/-- **bounded_abandon at every stall point**: an upstream that answers correctly up to a later point of the
+    handshake — the first response, the 101, the beginning of a TLS record — and then goes silent is abandoned
+    within dialTimeout + handshakeDeadline just like one that never answers; in the policy model each of them
+    is the outcome `silent` of that upstream (`kindOfChar`), so fail-over continues (`C16_ordered_failover`)
+    and no Connect blocks (`C16_never_blocked`). -/
+theorem C16_bounded_abandon_stall (dialT : Nat) (p : StallPt) :
+    ∃ d b, Facts.current.deadline = some d ∧
+      stallBound Facts.current (deadlineSpansHandshake Gen.c16DeadlineSites Gen.c16HandshakeChain) dialT p = some b ∧
+      b ≤ dialT + d := by
+  obtain ⟨d, hd⟩ := Option.isSome_iff_exists.mp C16_current_facts.2.2.1
+  have hs := C16_deadline_sites.2.2.1
+  cases p <;> simp [stallBound, hd, hs]
+
+theorem C16_stall_kinds_are_silent :
+    kindOfChar 'A' = some .silent ∧ kindOfChar 'L' = some .silent ∧ kindOfChar 'K' = some .silent ∧
+    kindOfChar 'S' = some .silent := by decide
+
+/-- **witness_starttls_stall_unbounded**: were the deadline taken off once the 101 has been read (a further
+    clearing call inside `upgrade`), an upstream that goes silent inside the StartTLS handshake would never be
+    abandoned — while one that is silent from the start still would. -/
+theorem C16_witness_starttls_stall_unbounded :
+    let sites := expectedDeadlineSites ++ [("ClientConnection.upgrade", "SetDeadline", "time.Time{}", "after request.Write,response.Read")]
+    deadlineSpansHandshake sites expectedHandshakeChain = false ∧
+    stallBound Facts.current false 0 .startTls = none ∧ stallBound Facts.current false 0 .tlsRecord = none ∧
+    (stallBound Facts.current false 0 .start).isSome = true := by
+  decide
+
 /-- **witness_silent_blocks** (the tree before the repair): [silent, ok] — the first local connection
     never returns, the second upstream is never dialled, the mutex is never released: every later
     local connection blocks as well, and Shutdown does nothing. -/
@@ -600,6 +636,10 @@ theorem C16_verified_reconnect (ds : List UpDesc) (lost : Option Nat) (sh : Sh) 
 
 /-! ### non-vacuity -/
 
+-- stall points: [stalls inside StartTLS, StartTLS server] is served by the second upstream; bound is concrete
+example : ((kindOfChar 'L').bind fun l => (kindOfChar 'Q').map fun q =>
+    (connect Facts.current (Cfg.simple false .absent [l, q]) Sh.init true).2.1) = some (.up 1) := by decide
+example : (stallBound Facts.current true 1000 .startTls).isSome = true := by decide
 -- failover past a refused, a silent and a garbage-answering upstream to the fourth one
 example : (connect Facts.current (Cfg.simple false .absent [.refused, .silent, .hsError, .okPlain]) Sh.init true).2.1 = .up 3 := by decide
 -- an insecure upstream is passed over when security is required
@@ -650,3 +690,7 @@ end SA.Policy
 #print axioms SA.Policy.C16_bounded_abandon
 #print axioms SA.Policy.C16_witness_silent_blocks
 #print axioms SA.Policy.C16_witness_rejected_leak
+#print axioms SA.Policy.C16_deadline_sites
+#print axioms SA.Policy.C16_bounded_abandon_stall
+#print axioms SA.Policy.C16_stall_kinds_are_silent
+#print axioms SA.Policy.C16_witness_starttls_stall_unbounded
